@@ -25,7 +25,9 @@ ASSUMPTIONS = ['order is required under the FIFO schedule for the threaded '
                'client\'s message handlers (one task per message) and for '
                'background server handlers only as a multiset',
                'text payloads are not JSON look-alikes (that rule is C01\'s)',
-               'the cross pairs run the threaded party under the FIFO policy']
+               'cross pairs: the asyncio loop is one task of the thread '
+               'scheduler and is interleaved with the threaded party\'s tasks '
+               'by the same (fifo or seeded random) policy']
 REQUIRED = ['conversations', 'up_exactly_once', 'down_exactly_once',
             'idle_survived', 'both_sides_one_disconnect']
 SHARD_TIMEOUT = {'quick': 600, 'thorough': 3400}
@@ -63,7 +65,7 @@ def run_conv(rec, case):
     transport = rng.choice(['polling', 'websocket', 'upgrade'])
     pi, pt = rng.choice(HB)
     async_handlers = rng.random() < 0.3
-    sched_seed = rng.randrange(1 << 30) if (pair == 'TT' and
+    sched_seed = rng.randrange(1 << 30) if (pair != 'AA' and
                                             rng.random() < 0.5) else 0
     rec.evaluations += 1
     w = cli.PAIRS[pair]({'ping_interval': pi, 'ping_timeout': pt,
